@@ -263,12 +263,13 @@ pub fn fault_alphabet(prop: &str, n: usize, len: usize) -> Vec<(Act, Vec<FaultKi
             }
             for a in 0..=len {
                 for b in a..=len {
-                    for s in Script::all_up_to(b - a) {
+                    // (beyond the core capacities only short consumption prefixes are enumerated)
+                    for s in Script::all_up_to((b - a).min(if n > 8 { 3 } else { usize::MAX })) {
                         v.push((Drain(Rs::half_open(a, b), s, Fin::Drop), d.clone()));
                     }
                 }
             }
-            for s in Script::all_up_to(len) {
+            for s in Script::all_up_to(len.min(if n > 8 { 4 } else { usize::MAX })) {
                 v.push((IntoIter(s), d.clone()));
             }
             v.push((DropBuf, d.clone()));
@@ -299,7 +300,7 @@ pub fn fault_alphabet(prop: &str, n: usize, len: usize) -> Vec<(Act, Vec<FaultKi
         "C10" => {
             for a in 0..=len {
                 for b in a..=len {
-                    for s in Script::all_up_to(b - a + 1) {
+                    for s in Script::all_up_to((b - a + 1).min(if n > 8 { 4 } else { usize::MAX })) {
                         v.push((Drain(Rs::half_open(a, b), s, Fin::Forget), vec![]));
                     }
                 }
@@ -353,7 +354,9 @@ pub fn fault_check<const N: usize>(prop: &str, o: &Opts, rep: &mut Report) {
     }
     finish_space(rep, &sp);
     // constructors that run user code / destructors
-    ctor_faults::<N>(prop, rep);
+    if o.shard.0 == 0 {
+        ctor_faults::<N>(prop, rep);
+    }
 
     fn tally(rep: &mut Report, recipe: &Recipe, act: &Act, fault: Option<(FaultKind, u32)>, out: &FaultOutcome) {
         rep.transitions += 1;
